@@ -129,7 +129,30 @@ class EvalContext(metaclass=NamespaceableMeta):
                     raise errors.UnsafeError(f'Note: the current context requires all evaluated nodes to be safe but the value cached for {str(path)!r} was computed from at least one !unsafe node', self.cfg.ayns.get_node(path, incomplete=None), str(path))
                 self._unsafe_seen += 1
             return self._eval_cache[tuple(path)]
-        return self.cfg.ayns.get_node(path, **kwargs)
+        try:
+            ret = self.cfg.ayns.get_node(path, **kwargs)
+        except KeyError:
+            if not self._evaluate_lazy_prefix(path):
+                raise
+            return self.get_node(path, **kwargs)
+        if ret is None and self._evaluate_lazy_prefix(path):
+            return self.get_node(path, **kwargs) # answered from the cache now, with the safety bookkeeping of cached values
+        return ret
+
+    def _evaluate_lazy_prefix(self, path):
+        ''' A path may lead into the content of a lazily included file (``!rec``), which exists only once that node has been evaluated:
+            evaluate the deepest node on the way if it is such a node. Returns True if the path is known afterwards.
+        '''
+        from .nodes.recurse import RecurseNode
+        for i in range(len(path) - 1, 0, -1):
+            node = self.cfg.ayns.get_node(path[:i], incomplete=None)
+            if node is None:
+                continue
+            if isinstance(node, RecurseNode) and id(node) not in self._in_progress and id(node) not in self._eval_cache_id:
+                self.evaluate_node(node, prefix=NodePath(path[:i]))
+                return tuple(path) in self._eval_cache
+            return False
+        return False
 
     @errors.api_entry
     def evaluate_node(self, cfgobj, prefix=None):
